@@ -1773,6 +1773,9 @@ func main() {
 			for _, kind := range []string{"insp-run", "readme", "pubkeys"} {
 				wr.Put(alterInMemory(nil, r.Fork(), work, kind))
 			}
+			for _, wrapper := range []string{"legacy", "dsse"} {
+				wr.Put(verifyTwiceParams(nil, r.Fork(), work, wrapper))
+			}
 		case "c10":
 			for _, wrapper := range []string{"legacy", "dsse"} {
 				wr.Put(collisionFirstUse(nil, r.Fork(), work, focus, wrapper, "fake-then-real"))
@@ -2005,6 +2008,49 @@ func alterInMemory(sc *Scn, rr *lib.Rng, work, kind string) lib.Case {
 	return lib.Case{Klass: sc.Klass, Input: lib.MustJSON(sc), Impl: impl, Oracle: oracle, CoqModel: "(" + m1 + " ++ [59] ++ " + m2 + ")"}
 }
 
+// verifyTwiceParams: ONE loaded layout object with substitution markers is verified with the parameters the chain was
+// built for (accept), then with another dictionary (the rules then name other files: reject), then with the first
+// again (accept): what is enforced must each time be the signed template with the dictionary of THAT call.
+func verifyTwiceParams(sc *Scn, rr *lib.Rng, work, wrapper string) lib.Case {
+	good := map[string]string{"OUT": "out", "SRC": "src"}
+	bad := map[string]string{"OUT": "wrong", "SRC": "src"}
+	if sc == nil {
+		sc = baseScenario(rr, "c01", 0)
+		sc.Wrapper, sc.Entry = wrapper, "plain"
+		sc.Defect, sc.Klass, sc.Seed = "verify-twice-other-parameters", "c01/verify-twice-other-parameters", lib.Seed()
+		sc.Params = good
+		sc.Insps = []InspSpec{{Name: "insp0", Kind: "log"}}
+		sc.ExpectLog = []string{"insp0"}
+	}
+	root := filepath.Join(work, "run-twice-"+wrapper)
+	w := materialise(sc, root, rr)
+	lm, err := intoto.LoadMetadata(w.layoutPath)
+	must(err)
+	var impls, models []string
+	viol := ""
+	for i, ps := range []map[string]string{good, bad, good} {
+		scx := *sc
+		scx.Params = ps
+		if i == 1 {
+			scx.Expect, scx.ExpectLog = "reject", nil
+		}
+		o := runImplOn(&scx, w, lm)
+		cleanInspectionLinks(w)
+		impls = append(impls, o.String())
+		models = append(models, coqModelP(&scx, w, ps))
+		if v := oracleViolations(&scx, o); v != "" && viol == "" {
+			viol = fmt.Sprintf("verification %d of the same layout object (parameters %v): %s", i+1, ps, v)
+		}
+	}
+	impl := strings.Join(impls, ";")
+	oracle := impl
+	if viol != "" {
+		oracle = "VIOLATES: " + viol
+	}
+	os.RemoveAll(root)
+	return lib.Case{Klass: sc.Klass, Input: lib.MustJSON(sc), Impl: impl, Oracle: oracle, CoqModel: "(join [59] " + lib.CoqList(models, "str") + ")"}
+}
+
 // forgedSubLinkFirstUse: inside a sublayout one step is authorised for a dedicated victim key; its only link is forged
 // (signed by an outsider, labelled with the victim's key id). Earlier in the process a key object labelled with the
 // victim's id but holding the outsider's material checked that link (legitimate: a key id is a label). The
@@ -2055,6 +2101,8 @@ func special(sc *Scn, work string) (lib.Case, bool) {
 		return alterInMemory(sc, rr, work, sc.DefectArg), true
 	case "sub-forged-link-first-use":
 		return forgedSubLinkFirstUse(sc, rr, work, sc.Wrapper), true
+	case "verify-twice-other-parameters":
+		return verifyTwiceParams(sc, rr, work, sc.Wrapper), true
 	}
 	return lib.Case{}, false
 }
